@@ -41,6 +41,11 @@ def run(rep, tier):
                     ((16, 0, 0, 32), (16, 8, 5, 33), (70, 33, 0, 40), (1, 64, 9, 65), (0, 0, 0, 1), (32, 32, 32, 96), (16, 65, 1, 31)):
                 cases.append((js, cname, layout, "case_hkdf", (a, kl, sl, il, ol),
                               "hkdf%s key %d salt %d info %d output %d" % (sfx, kl, sl, il, ol), "ascon_hkdf" + sfx))
+            for (cnt, posn, il, chunks) in ((255, 32, 3, (70,)), (254, 32, 0, (32, 33, 5)), (255, 10, 5, (22, 32, 1, 0, 4)),
+                                            (0, 20, 2, (5, 7, 9)), (0, 32, 0, (0, 1)), (1, 32, 4, (40,)), (2, 31, 4, (34,))):
+                cases.append((js, cname, layout, "case_hkdf_limit", (a, cnt, posn, il, chunks),
+                              "hkdf%s expand from counter %d position %d info %d requests %s" % (sfx, cnt, posn, il, list(chunks)),
+                              "ascon_hkdf%s_expand" % sfx))
             for kl in (0, 16, 33):
                 for cl in (0, 9):
                     for ol in (16, 32, 41):
